@@ -401,8 +401,11 @@ class Ctx:
                 continue
             # only this property's harness files (cNN_*.go) plus unprefixed shared files: a harness of
             # another property that no longer compiles must not make this check inconclusive
-            gos = [f for f in files if f.endswith(".go") and
-                   (not re.match(r"^[a-z]\d\d_", f) or f.startswith(self.prop.lower() + "_"))]
+            # a file may be shared by several properties: c01c05c12_name_test.go
+            def mine(f):
+                m = re.match(r"^((?:[a-z]\d\d)+)_", f)
+                return m is None or self.prop.lower() in re.findall(r"[a-z]\d\d", m.group(1))
+            gos = [f for f in files if f.endswith(".go") and mine(f)]
             if not gos:
                 continue
             pkgdir = os.path.join(REPO, rel)
